@@ -49,6 +49,7 @@ def to_layout(b):
         lay["definedFieldCount"] = 4
     if b["zoom"] and kind == "bw":
         lay["zooms"] = [{"reduction": 2, "records": sorted([[ids[r[0] - 1]] + r[1:] for r in b["zrecs"]], key=lambda r: r[0]), "itemsPerBlock": 2,
+                         "crossChrom": b["zoom"] == 2,          # kent-style packing: a zoom block may hold records of several chromosomes
                          "rtree": {"blockSize": b["rbs"], "itemsPerSlot": 2, "nodeOrder": b["order"], "gap": b["gap"]}}]
     return lay
 
